@@ -5,6 +5,7 @@ import (
 	"os"
 	"sort"
 	"strings"
+	"time"
 )
 
 // ---------------------------------------------------------------------------
@@ -49,9 +50,16 @@ const (
 	CUnavailDirectRan      = "ran-with-unavailable-direct-dep" // C04
 	CEscapedPanic          = "escaped-panic"                   // C14 and everything
 	CForeign               = "foreign-value"                   // harness sanity
+	CRootCause             = "root-cause"                      // C07/C13
+	CContinued             = "continued-after-failure"         // C07
+	CErrIdentity           = "invoke-error-identity"           // C13
+	CErrClass              = "error-class"                     // C13
+	CCallback              = "callback"                        // C20
+	CSpuriousCycle         = "spurious-cycle"                  // C05/C13
 )
 
 type InvokeInfo struct {
+	Failures        int
 	Bystanders      int // registered functions outside mayRun at the time of the Invoke
 	BystanderScopes int
 	Op              int
@@ -78,6 +86,9 @@ type VResult struct {
 	// Tainted: an Invoke inside the KF-DECO-CYCLE pattern was executed; dig's
 	// state after it is not described by any property, validation stops.
 	Tainted bool
+	// Blind: a registration using types/tags/options outside the model's
+	// grammar was accepted; model predictions are no longer asserted.
+	Blind bool
 	// Counters
 	ZoneSkips int
 	Poisoned  map[int64]bool
@@ -156,6 +167,45 @@ func navigate(args []Prov, path string) (Prov, bool) {
 	return cur, true
 }
 
+// fnHasHost: the signature uses types the model cannot analyse.
+func fnHasHost(f *Fn) bool {
+	var hp func(p Param) bool
+	hp = func(p Param) bool {
+		if p.Host != "" || p.Tag != "" {
+			return true
+		}
+		for _, q := range p.Obj {
+			if hp(q) {
+				return true
+			}
+		}
+		return false
+	}
+	var hr func(r Result) bool
+	hr = func(r Result) bool {
+		if r.Host != "" || r.Tag != "" {
+			return true
+		}
+		for _, q := range r.Obj {
+			if hr(q) {
+				return true
+			}
+		}
+		return false
+	}
+	for _, p := range f.P {
+		if hp(p) {
+			return true
+		}
+	}
+	for _, r := range f.R {
+		if hr(r) {
+			return true
+		}
+	}
+	return false
+}
+
 func hasPendingFault(g *MFn) bool {
 	for i := g.Execs; i < len(g.F.Faults); i++ {
 		if g.F.Faults[i] != FaultOK {
@@ -213,6 +263,16 @@ func Validate(c *Case, tr *Trace, vo VOpts) *VResult {
 			}
 			v.DupPred[i] = dup
 			accepted := out.Class == ClOK
+			if out.Class == ClOther {
+				v.add(CErrClass, i, "%s returned an error that does not satisfy dig.Error after RootCause: %v", op.K, out.Err)
+			}
+			if out.Class == ClCycle {
+				if kind == KDeco {
+					v.add(CSpuriousCycle, i, "Decorate reported a cycle: %v", out.Err)
+				} else if !v.Blind && !fnHasHost(op.F) && !(op.O != nil && len(op.O.AsRaw) > 0) && !m.MaxCyclic(append(m.AllCtors(), mf)) {
+					v.add(CSpuriousCycle, i, "Provide rejected as a cycle although the graph is acyclic under the most permissive reading: %v", out.Err)
+				}
+			}
 			if vo.ValidSigs {
 				clause := CVerdictProvide
 				if kind == KDeco {
@@ -227,6 +287,10 @@ func Validate(c *Case, tr *Trace, vo VOpts) *VResult {
 				if dup == "" && !accepted && out.Class != ClCycle {
 					v.add(clause, i, "rejected (%s: %v) although signature is valid and no key collides", out.Class, out.Err)
 				}
+			}
+			if accepted && (fnHasHost(op.F) || (op.O != nil && len(op.O.AsRaw) > 0)) {
+				v.Blind = true
+				v.Labels["model-blind"] = true
 			}
 			if accepted {
 				if kind == KCtor {
@@ -245,7 +309,7 @@ func Validate(c *Case, tr *Trace, vo VOpts) *VResult {
 			if op.F == nil {
 				continue
 			}
-			if v.Tainted {
+			if v.Tainted || v.Blind {
 				continue
 			}
 			v.validateInvoke(c, tr, rt, i, op, out, rejected)
@@ -323,6 +387,12 @@ func (v *VResult) validateInvoke(c *Case, tr *Trace, rt *RT, i int, op Op, out O
 				continue
 			}
 			g.Execs++
+			if g.Fails > 0 {
+				v.Labels["retry-after-fault"] = true
+				if g.O != nil && g.O.CB {
+					v.Labels["cb-fn-retried"] = true
+				}
+			}
 			if g != fn {
 				if g.OkExec >= 0 {
 					v.add(CExecTwice, i, "%v executed again (exec %d) after successful exec %d", g, ev.Exec, g.OkExec)
@@ -378,6 +448,25 @@ func (v *VResult) validateInvoke(c *Case, tr *Trace, rt *RT, i int, op Op, out O
 			}
 		}
 	}
+	v.checkFailures(c, tr, rt, i, out, fn, ii)
+	v.checkCallbacks(c, tr, rt, i, fn)
+	if ii.Failures > 0 && len(ii.RanOK) > 0 {
+		v.Labels["failure-beside-success"] = true
+	}
+	ncb := 0
+	for _, ev := range tr.Events(i) {
+		if ev.Kind == EvCB {
+			ncb++
+		}
+	}
+	if ncb >= 2 {
+		v.Labels["cb>=2-in-one-invoke"] = true
+	}
+	for id := range ii.MustRun {
+		if g := m.Fns[id]; g != nil && okAtStart[id] && g.O != nil && g.O.CB {
+			v.Labels["cb-fn-cached"] = true
+		}
+	}
 	if out.Class == ClOK && ii.Invoked != 1 {
 		v.add(CInvokedOnce, i, "Invoke succeeded but the function ran %d times", ii.Invoked)
 	}
@@ -417,6 +506,190 @@ func (v *VResult) validateInvoke(c *Case, tr *Trace, rt *RT, i int, op Op, out O
 		}
 		if !avail && ii.Invoked > 0 {
 			v.add(CVerdictInvoke, i, "invoked function ran although a required dependency is unavailable")
+		}
+	}
+}
+
+// checkFailures: the Invoke's error must be the failing execution's own
+// sentinel (C07, C13).
+func (v *VResult) checkFailures(c *Case, tr *Trace, rt *RT, i int, out OpOut, fn *MFn, ii *InvokeInfo) {
+	type fail struct{ fn, exec, outcome int }
+	var fails []fail
+	for _, ev := range tr.Events(i) {
+		if ev.Kind == EvExit && ev.Outcome != FaultOK {
+			fails = append(fails, fail{ev.Fn, ev.Exec, ev.Outcome})
+		}
+	}
+	ii.Failures = len(fails)
+	if len(fails) == 0 {
+		if out.Class == ClUser || out.Class == ClPanicErr || out.Class == ClPanicked {
+			v.add(CRootCause, i, "Invoke reports %s (%v / panic %v) but no user function failed during it", out.Class, out.Err, out.PanicVal)
+		}
+		if out.Class == ClOther {
+			v.add(CErrClass, i, "Invoke returned an error that is neither a user error, a PanicError nor a dig.Error after RootCause: %v", out.Err)
+		}
+		return
+	}
+	if len(fails) > 1 {
+		v.add(CContinued, i, "%d user functions failed during one Invoke (resolution continued after the first failure): %v", len(fails), fails)
+	}
+	f0 := fails[0]
+	v.Labels["user-failure"] = true
+	if f0.fn != fn.ID {
+		if g := v.M.Fns[f0.fn]; g != nil {
+			if g.Kind == KDeco {
+				v.Labels["decorator-failed"] = true
+			}
+			if g.View != fn.View {
+				v.Labels["fail-cross-scope"] = true
+			}
+			if d := v.resolutionDepth(fn, g); d >= 3 {
+				v.Labels["fail-depth>=3"] = true
+			}
+			for _, k := range g.Keys() {
+				if k.Group != "" {
+					v.Labels["fail-through-group"] = true
+				}
+			}
+		}
+	}
+	switch f0.outcome {
+	case FaultError:
+		want := rt.errOf(f0.fn, f0.exec)
+		if out.Panicked {
+			v.add(CRootCause, i, "f%d returned an error but Invoke panicked: %v", f0.fn, out.PanicVal)
+			return
+		}
+		if f0.fn == fn.ID {
+			if out.Err != error(want) {
+				v.add(CErrIdentity, i, "the invoked function returned %v but Invoke returned %v (not the identical error)", want, out.Err)
+			}
+			return
+		}
+		if out.Err == nil {
+			v.add(CRootCause, i, "f%d failed with an error but Invoke returned nil", f0.fn)
+			return
+		}
+		if digRootCause(out.Err) != error(want) {
+			v.add(CRootCause, i, "f%d failed with %v but RootCause(err) is %v (err: %v)", f0.fn, want, digRootCause(out.Err), out.Err)
+		}
+		if !errorsIs(out.Err, want) {
+			v.add(CRootCause, i, "errors.Is(err, the error returned by f%d) is false (err: %v)", f0.fn, out.Err)
+		}
+		if out.Class == ClCycle {
+			v.add(CErrClass, i, "IsCycleDetected is true for a user error: %v", out.Err)
+		}
+	case FaultPanic:
+		want := rt.panicOf(f0.fn, f0.exec)
+		if !c.Cfg.Recover {
+			if !out.Panicked {
+				v.add(CRootCause, i, "f%d panicked, RecoverFromPanics is off, but Invoke returned normally (err: %v): the panic was swallowed", f0.fn, out.Err)
+			} else if out.PanicVal != interface{}(want) {
+				v.add(CRootCause, i, "f%d panicked with %v but the panic that reached the caller is %v", f0.fn, want, out.PanicVal)
+			}
+			return
+		}
+		if out.Panicked {
+			v.add(CRootCause, i, "f%d panicked and RecoverFromPanics is on, but the panic escaped Invoke: %v", f0.fn, out.PanicVal)
+			return
+		}
+		pv, isPE, isDig := panicErrorOf(out.Err)
+		if !isPE {
+			v.add(CRootCause, i, "f%d panicked with RecoverFromPanics on but RootCause(err) is not a PanicError: %v", f0.fn, out.Err)
+			return
+		}
+		if pv != interface{}(want) {
+			v.add(CRootCause, i, "PanicError carries %v, want the value f%d panicked with (%v)", pv, f0.fn, want)
+		}
+		if isDig {
+			v.add(CErrClass, i, "the PanicError root cause also satisfies dig.Error")
+		}
+		if out.Class == ClCycle {
+			v.add(CErrClass, i, "IsCycleDetected is true for a recovered panic")
+		}
+	}
+}
+
+// resolutionDepth: BFS distance from the invoked function to g in the
+// resolution graph.
+func (v *VResult) resolutionDepth(from, to *MFn) int {
+	type qe struct {
+		f *MFn
+		d int
+	}
+	seen := map[*MFn]bool{from: true}
+	q := []qe{{from, 0}}
+	for len(q) > 0 {
+		cur := q[0]
+		q = q[1:]
+		if cur.f == to {
+			return cur.d
+		}
+		for _, l := range cur.f.Leaves {
+			for _, t := range v.M.Targets(cur.f, l) {
+				if !seen[t] {
+					seen[t] = true
+					q = append(q, qe{t, cur.d + 1})
+				}
+			}
+		}
+	}
+	return -1
+}
+
+// checkCallbacks: callback events and executions correspond one-to-one, with
+// the true outcome, name and run time (C20).
+func (v *VResult) checkCallbacks(c *Case, tr *Trace, rt *RT, i int, fn *MFn) {
+	if c.Cfg.Dry {
+		return
+	}
+	evs := tr.Events(i)
+	for j, ev := range evs {
+		switch ev.Kind {
+		case EvExit:
+			g := v.M.Fns[ev.Fn]
+			if g == nil || g.O == nil || !g.O.CB {
+				continue
+			}
+			v.Labels["callback-fired"] = true
+			if j+1 >= len(evs) || evs[j+1].Kind != EvCB || evs[j+1].Fn != ev.Fn {
+				v.add(CCallback, i, "%v finished (outcome %d) but its callback was not called right after it", g, ev.Outcome)
+				continue
+			}
+			cb := evs[j+1]
+			switch ev.Outcome {
+			case FaultOK:
+				if cb.CBErr != nil {
+					v.add(CCallback, i, "%v succeeded but its callback received Error=%v", g, cb.CBErr)
+				}
+			case FaultError:
+				want := rt.errOf(ev.Fn, ev.Exec)
+				if cb.CBErr == nil || digRootCause(cb.CBErr) != error(want) {
+					v.add(CCallback, i, "%v failed with %v but its callback received Error=%v", g, want, cb.CBErr)
+				}
+			case FaultPanic:
+				if c.Cfg.Recover {
+					pv, isPE, _ := panicErrorOf(cb.CBErr)
+					if !isPE || pv != interface{}(rt.panicOf(ev.Fn, ev.Exec)) {
+						v.add(CCallback, i, "%v panicked (recovered) but its callback received Error=%v", g, cb.CBErr)
+					}
+				}
+			}
+			if g.F.Bank > 0 {
+				if want := BankName(g.F.Bank - 1); cb.CBName != want {
+					v.add(CCallback, i, "%v: callback Name=%q, want %q", g, cb.CBName, want)
+				}
+			}
+			if int64(cb.CBRuntime) != int64(g.F.Dur) {
+				v.add(CCallback, i, "%v: callback Runtime=%v but the function itself advanced the clock by %v", g, cb.CBRuntime, time.Duration(g.F.Dur))
+			}
+		case EvCB:
+			if j == 0 || evs[j-1].Kind != EvExit || evs[j-1].Fn != ev.Fn {
+				v.add(CCallback, i, "callback of f%d fired without a preceding execution of that function", ev.Fn)
+			}
+			if g := v.M.Fns[ev.Fn]; g == nil {
+				v.add(CCallback, i, "callback of f%d fired but that function is not registered", ev.Fn)
+			}
 		}
 	}
 }
